@@ -289,6 +289,18 @@ func runStop(c *StopCase) *StopObs {
 		})
 		cleanup = func() { logHook.Store(func(bool) {}) }
 		at = attempt{l: l, pacing: c.Pacing}
+	case "handler_panic":
+		// the handler panics in its At-th call; the caller recovers (the harness goroutine that runs Stream)
+		np := 0
+		at = attempt{l: l, pacing: c.Pacing, handler: func(tx *gobinlog.Transaction, st *attemptState) error {
+			np++
+			if np == f.At {
+				obs.CauseFired = true
+				atomic.StoreInt32(&quiet, 1)
+				panic(handlerPanic{})
+			}
+			return nil
+		}}
 	case "handler_err_cancel":
 		nn := 0
 		at = attempt{l: l, pacing: c.Pacing, handler: func(tx *gobinlog.Transaction, st *attemptState) error {
